@@ -2,6 +2,7 @@
     Only statements; the model is SGV.Plugins.FileSystem (mirrors s4u_FileSystem.cpp after commit "fix: File::write
     truncates the file when it overwrites from inside"), proofs live in SGV.Plugins.FileSystemProofs. *)
 From SGV Require Import Base.Tactics Plugins.FileSystem Plugins.FileSystemProofs.
+From SGV Require Import Plugins.FileSystemConc Plugins.FileSystemConcProofs.
 Local Open Scope Z_scope.
 
 (* Full statement wanted by the property text:
@@ -94,4 +95,67 @@ Example C46_nonvacuous :
 Proof.
   cbn zeta. split; [repeat constructor; cbn; intuition lia|]. split; [repeat constructor; cbn; rewrite ?W_val; lia|].
   split; [vm_compute; reflexivity|]. eexists. split; [vm_compute; reflexivity|]. split; reflexivity.
+Qed.
+
+(** ---------------------------------------------------------------------------------------------------------------
+    Several actors on one disk (SGV.Plugins.FileSystemConc): an operation is not atomic, it is a first segment
+    ([Start a o]: everything up to the first accounting simcall; it reads the disk state) followed by the updates the C++
+    performs one simcall / one statement at a time ([Tick a]: used_size_ += x, used_size_ -= x, replace the content entry,
+    erase the content entry), and the segments of different actors interleave in any order (same scheduling round,
+    later rounds, later dates).  Discipline [madmissible]: [admissible] as above + no operation in flight concerns a path
+    that the starting operation touches (different actors work on different files). *)
+
+(* the segments of one operation, run without interruption, are exactly one [step] of the single-actor model
+   (which is tied to the C++ by the differential runs) *)
+Theorem C46_segments_refine_step : forall s o,
+  step true s o = match decide s o with
+                  | Some (s', r, l) => Some (flush s' (op_path s o) l, r)
+                  | None => None
+                  end.
+Proof. exact decide_refines_step. Qed.
+Print Assumptions C46_segments_refine_step.
+Theorem C46_solo_refines_step : forall s a o,
+  mrun (mkM s []) (solo a o) = match step true s o with Some (s', _) => Some (mkM s' []) | None => None end.
+Proof. exact solo_refines_step. Qed.
+Print Assumptions C46_solo_refines_step.
+
+(* every segment of every admissible interleaving preserves: used size = total of the files - what the operations in
+   flight still owe ([psum]), distinct Files in flight, well-formed content *)
+Theorem C46_interleaving_preserves_accounting : forall M e M' r,
+  MInv M -> madmissible M e = true -> mstep M e = Some (M', r) -> MInv M'.
+Proof. exact mstep_inv. Qed.
+Print Assumptions C46_interleaving_preserves_accounting.
+
+(* ... hence, from a freshly parsed disk, after ANY interleaving of the segments of the actors' operations: the used size
+   is the total of the files corrected by the operations in flight, and equals it as soon as no operation is in flight
+   (the audit points of the multi-actor driver).  Partial for the same reason as C46_used_eq_sum_partial. *)
+Theorem C46_concurrent_used_eq_sum_partial : forall c capacity es M',
+  nodup c -> ranged c ->
+  all_madmissible (minit c capacity) es = true ->
+  mrun (minit c capacity) es = Some M' ->
+  used (ms M') = wrap (total (content (ms M')) - psum (content (ms M')) (pend M'))
+  /\ (pend M' = [] ->
+      used (ms M') = wrap (total (content (ms M')))
+      /\ (total (content (ms M')) < W -> used (ms M') = total (content (ms M')))).
+Proof. exact concurrent_used_eq_sum. Qed.
+Print Assumptions C46_concurrent_used_eq_sum_partial.
+
+(* non-vacuous: three actors; in one round two of them unlink their file and the third cuts its file from 4000 to 1500
+   bytes (seek 1000, write 500); the three decrements are handled first (used 1000 while the files still total 7500,
+   three operations in flight), then the remaining updates: used = total = 1500 *)
+Example C46_concurrent_nonvacuous :
+  let c := [(0, 1000); (1, 2500); (2, 4000)] in
+  let es1 := [Start 0 (Open 0 0); Start 1 (Open 16 1); Start 2 (Open 32 2); Start 2 (Seek 32 1000 0);
+              Start 0 (Unlink 0); Start 1 (Unlink 16); Start 2 (Write 32 500 false); Tick 0; Tick 1; Tick 2] in
+  let es2 := [Tick 0; Tick 1; Tick 2; Tick 2; Tick 2] in
+  nodup c /\ ranged c /\ all_madmissible (minit c 1000000) (es1 ++ es2) = true
+  /\ (exists M1, mrun (minit c 1000000) es1 = Some M1 /\ length (pend M1) = 3%nat
+                 /\ used (ms M1) = 1000 /\ total (content (ms M1)) = 7500)
+  /\ exists M', mrun (minit c 1000000) (es1 ++ es2) = Some M' /\ pend M' = []
+                /\ used (ms M') = 1500 /\ total (content (ms M')) = 1500.
+Proof.
+  cbn zeta. split; [repeat constructor; cbn; intuition lia|]. split; [repeat constructor; cbn; rewrite ?W_val; lia|].
+  split; [vm_compute; reflexivity|]. split.
+  - eexists. split; [vm_compute; reflexivity|]. repeat split; reflexivity.
+  - eexists. split; [vm_compute; reflexivity|]. repeat split; reflexivity.
 Qed.
